@@ -11,6 +11,7 @@ Proofs: Proofs/LexChars, LexPhase1 (characters → partial tokens), LexFloat, Le
 tokens → tokens), LexRoundtrip.
 -/
 import EvalexprVerif.Proofs.LexRoundtrip
+import EvalexprVerif.Proofs.LexExt
 import EvalexprVerif.Proofs.AgreeToken
 
 namespace Evalexpr.Spec.C07
@@ -21,6 +22,28 @@ theorem C07_roundtrip (ps : List (Gap × PTok)) (g : Gap)
     (hp : ∀ p ∈ ps, p.2.Printable) (ha : Admissible ps g) :
     tokenize (renderFrom ps g) = .ok (ps.map (·.2.tok)) :=
   Evalexpr.Spec.C07_roundtrip ps g hp ha
+
+/-- **C07 (extended)**: the same with literals in EVERY spelling the language has — floats in scientific
+notation with a signed exponent (`5e-3`, three partial tokens for the lexer) — and with the weakest
+separation the lexer needs: a sign directly after `<digits>e` needs a gap only if that word is an
+identifier (`0x1e-3` is `30 - 3`). Subsumes `C07_roundtrip` (`printableX_of_printable`,
+`admissibleX_of_admissible`). -/
+theorem C07_roundtrip_ext (ps : List (Gap × PTok)) (g : Gap)
+    (hp : ∀ p ∈ ps, p.2.PrintableX) (ha : AdmissibleX ps g) :
+    tokenize (renderFrom ps g) = .ok (ps.map (·.2.tok)) :=
+  Evalexpr.Spec.C07_roundtrip_ext ps g hp ha
+
+theorem C07_ext_subsumes (ps : List (Gap × PTok)) (g : Gap)
+    (hp : ∀ p ∈ ps, p.2.Printable) (ha : Admissible ps g) :
+    (∀ p ∈ ps, p.2.PrintableX) ∧ AdmissibleX ps g :=
+  ⟨fun p h => printableX_of_printable p.2 (hp p h), admissibleX_of_admissible ps g ha⟩
+
+/-- … hence equal trees for any two extended renderings of the same tokens -/
+theorem C07_tree_of_tokens_ext (ps : List (Gap × PTok)) (g : Gap)
+    (hp : ∀ p ∈ ps, p.2.PrintableX) (ha : AdmissibleX ps g) :
+    buildOperatorTree (renderFrom ps g) = tokensToOperatorTree (ps.map (·.2.tok)) := by
+  unfold buildOperatorTree
+  rw [C07_roundtrip_ext ps g hp ha]
 
 /-- two admissible gap assignments for the same tokens give the same token sequence -/
 theorem C07_invariance (toks : List PTok) (gs₁ gs₂ : List Gap) (g₁ g₂ : Gap)
